@@ -801,6 +801,9 @@ class Interp:
                 raise NotModelled("super() outside a method")
             return SuperProxy(e2.frame[0], e2.frame[1])
         fn = self.eval(e.func, env)
+        if isinstance(fn, ExtRef) and fn.dotted not in self.natives and \
+                any(fn.dotted == p or fn.dotted.startswith(p + ".") for p in self.lenient):
+            return None  # logging call: arguments are not evaluated (no effect on the modelled state)
         args = []
         for a in e.args:
             if isinstance(a, ast.Starred):
@@ -1224,6 +1227,13 @@ _BUILTINS = {
     "print": _Builtin(lambda it, *a, **k: None, "print"),
     "id": _Builtin(lambda it, x: id(x), "id"),
 }
+
+
+def clone_func(node):
+    """copy of a function node for in-memory mutation (no parent links, fresh positions)"""
+    import textwrap
+    n = ast.parse(textwrap.dedent(ast.unparse(node))).body[0]
+    return n
 
 
 def native(f):
